@@ -14,7 +14,7 @@ HAZ = {
     "rule": ["---", "***", "___", "- - -"],
     "setext": ["===", "=", "--"],
     "fence": ["```", "~~~", "````"],
-    "pipe": ["|x|", "|", "|---|"],
+    "pipe": ["|x|", "|", "|---|", "-|", "|-", ":-:", "|-|-|", "x|", ":-|", "-:"],
     "misc": ["+1", "-x", "#hash", "1.x", "[", "]", "[x]", "[ ]", "<", "&", "&amp;", "_", "__", "~", "`", "!", "*x", "x*", "_y", "y_", "|", "a|b", ":", "[^a]:", "[a]:"],
     "gtx": [">x", ">>", ">quote"],
     "backslash": ["\\"],
@@ -30,7 +30,10 @@ DOTS = ['"wait"...', "'x'...", '"a"...and', "(\"q\")...", "...", "wait...", "...
 def words(feat):
     pools = [st.sampled_from(PLAIN), st.sampled_from(PLAIN), st.sampled_from(SENT_END)]
     for k, v in HAZ.items():
-        if "haz_" + k in feat: pools.append(st.sampled_from(v))
+        if "haz_" + k in feat:
+            # "[^a]:" at a line start opens a footnote definition: only with the footnote feature
+            # a pair of lone "`" words makes a code span around generated gaps, whose width the layouts then vary: not for C03
+            pools.append(st.sampled_from([w for w in v if (w != "[^a]:" or "footnote" in feat) and (w != "`" or "no_lone_tick" not in feat)]))
     if "cjk" in feat: pools.append(st.sampled_from(CJK))
     if "quotes" in feat: pools += [st.sampled_from(QUOTES)] * 3
     if "dots" in feat: pools += [st.sampled_from(DOTS)] * 3
